@@ -515,7 +515,8 @@ PROPS = {
         level='proof',
         level_text='Bit-exact IEEE facts about the short floating-point primitives, for all arguments: TwoSum is an error-free transformation (float), '
                    'AngNormalize range / identity / sign / equivalence modulo 360, AngRound, LatFix, atan2d quadrants and exact axes, sincosd quadrant logic '
-                   'and exact special values: discharged by cbmc (loop-free code over full-domain symbolic floats).',
+                   'and exact special values; the Accumulator operations (=, +=, -=, *=(int), *=(T), remainder, Add, Sum): frames, exactly one Add of the signed value, exact negation of both words, '
+                   'reduction of the leading word only followed by one renormalising Add(0), NaN rules: discharged by cbmc (loop-free code over full-domain symbolic floats).',
         level_note='Trusted: exact models of remainder/remquo by 360/90 (conformance-tested against glibc), range-only models of sin/cos/atan2; fma in Accumulator::operator*=(T) modelled unfused (rounded product + rounded sum: its clauses use only exact products). '
                    'Accuracy in ulps of sind/cosd/tand/atan2d, taupf/tauf, and the Accumulator precision claim are not decided.',
         design_ref='DESIGN.md section 5, C16',
